@@ -97,6 +97,13 @@ def class_specs(draw, name, earlier, allow_hooks=True):
     spec_stub = {'classes': earlier}
     if b:
         used = {p['n'] for p in U.all_params(spec_stub, U.class_by_name(spec_stub, b))}
+    if b:
+        inherited = [q for q in U.all_params(spec_stub, U.class_by_name(spec_stub, b))
+                     if q.get('d') is not None and isinstance(q['t'], str)
+                     and _scalar_default(q['t']) is not None]
+        if inherited and draw(st.integers(0, 2)) == 0:
+            q = draw(st.sampled_from(inherited))
+            c['redef'] = {q['n']: draw(_scalar_default(q['t']))}
     nparams = draw(st.integers(0, 4))
     names = [n for n in draw(st.permutations(PARAM_NAMES)) if n not in used][:nparams]
     params = []
